@@ -317,8 +317,49 @@ func enumStrings(al []rune, maxLen int, yield func(string)) {
 	rec(nil)
 }
 
+// specialRunes: letters whose case mappings change the UTF-8 length (İ, ẞ, Ω ohm, K kelvin, Å angstrom, …), title-case
+// letters, and a sample of every 41st cased letter — the places where byte arithmetic on case-mapped words goes wrong
+func specialRunes() []rune {
+	var out []rune
+	n := 0
+	for r := rune(0x80); r < 0x1FFFF; r++ {
+		if !unicode.IsLetter(r) {
+			continue
+		}
+		l, u, t := unicode.ToLower(r), unicode.ToUpper(r), unicode.ToTitle(r)
+		lenDiff := utf8.RuneLen(l) != utf8.RuneLen(r) || utf8.RuneLen(u) != utf8.RuneLen(r) || utf8.RuneLen(t) != utf8.RuneLen(r) ||
+			len(strings.ToLower(string(r))) != utf8.RuneLen(r) || len(strings.ToUpper(string(r))) != utf8.RuneLen(r)
+		if lenDiff || unicode.IsTitle(r) {
+			out = append(out, r)
+			continue
+		}
+		if unicode.IsUpper(r) || unicode.IsLower(r) {
+			n++
+			if n%41 == 0 {
+				out = append(out, r)
+			}
+		}
+	}
+	return out
+}
+
 func init() {
 	register(&Property{ID: "C19", Streams: []*Stream{
+		{
+			Name: "convert-unicode", New: func() Case { return &convCase{} },
+			Enum: func(tier string, yield func(Case)) {
+				for _, r := range specialRunes() {
+					R := string(r)
+					for _, s := range []string{R, "max" + R + "Value", R + "Value", "temp_" + R, R + "x", "a" + R, R + R, "_" + R + "_"} {
+						for w := range converters {
+							yield(convCase{w, []byte(s)})
+						}
+					}
+				}
+			},
+			EnumExhaustive: true,
+			Rule:           "every letter (U+0080…U+1FFFF) whose lower/upper/title mapping changes its UTF-8 length, every title-case letter and every 41st other cased letter, alone and in 7 surroundings (before a Capitalised word, after an underscore, doubled, …) × the six converters",
+		},
 		{
 			Name: "split", Quick: 20000, Thorough: 300000,
 			New: func() Case { return &splitCase{} },
